@@ -222,7 +222,8 @@ class MTSPEnv(RL4COEnvBase):
     def _get_reward(self, td, actions=None) -> TensorDict:
         # With minmax, get the maximum distance among subtours, calculated in the model
         if self.cost_type == "minmax":
-            return td["reward"].squeeze(-1)
+            reward = td["reward"]
+            return reward.squeeze(-1) if reward.dim() > 1 else reward  # keep [1] at batch size 1
 
         # With distance, same as TSP
         elif self.cost_type == "sum":
